@@ -2,19 +2,21 @@
 // They see every private item of the crate root: Game/Strategies fields, Node, the iterators.
 #![allow(dead_code, unused_imports, clippy::all)]
 
-#[path = "/verif/kani/lib/util.rs"]
-pub(crate) mod util;
+#[path = "/verif/kani/lib/c02.rs"]
+mod c02;
+#[path = "/verif/kani/lib/c11.rs"]
+pub(crate) mod c11;
+#[path = "/verif/kani/lib/c13.rs"]
+mod c13;
+#[path = "/verif/kani/lib/c14.rs"]
+mod c14;
 #[path = "/verif/kani/lib/c18.rs"]
 mod c18;
 #[path = "/verif/kani/lib/c19.rs"]
 mod c19;
-#[path = "/verif/kani/lib/c13.rs"]
-mod c13;
+#[path = "/verif/kani/lib/compact.rs"]
+mod compact;
 #[path = "/verif/kani/models/maps.rs"]
 pub(crate) mod maps;
-#[path = "/verif/kani/lib/c14.rs"]
-mod c14;
-#[path = "/verif/kani/lib/c11.rs"]
-pub(crate) mod c11;
-#[path = "/verif/kani/lib/c02.rs"]
-mod c02;
+#[path = "/verif/kani/lib/util.rs"]
+pub(crate) mod util;
